@@ -151,6 +151,8 @@ def oracle_world(case, obs):
     fails = []
     for i, (op, st) in enumerate(zip(ops, steps)):
         if str(st["outcome"]).startswith("error"):
+            if op["op"] == "reopen" and W.world_stale_before(ops, steps, i, op["ws"]):
+                return [{"key": "stale-node-reused", "what": f"workspace {op['ws']} cannot be re-opened after a stale-node re-use: {st['outcome'][:160]}"}]
             return [{"key": "unexpected-exception", "what": f"op {i} {op}: {st['outcome']}"}]
         if op["op"] == "reopen" and i > 0:
             side = "b" if op["ws"] == 1 else "a"
